@@ -66,6 +66,7 @@ impl InstructionGenerator {
                 // A to C (upper bound to C)
                 self.push(Instruction::PopValueStackIntoA, pos);
                 self.push(Instruction::CopyAToC, pos);
+                self.generate_for_header_resume_point(pos);
                 // load 0 to B
                 self.push_load(Variant::VInteger(0), pos);
                 self.push(Instruction::CopyAToB, pos);
@@ -110,6 +111,7 @@ impl InstructionGenerator {
                 self.push_load(Variant::VInteger(1), pos);
                 // A to D (step is in D)
                 self.push(Instruction::CopyAToD, pos);
+                self.generate_for_header_resume_point(pos);
                 self.generate_for_loop_instructions_positive_or_negative_step(
                     &counter_var_name,
                     statements,
@@ -119,6 +121,16 @@ impl InstructionGenerator {
                 self.label("out-of-for", pos);
             }
         }
+    }
+
+    /// If the bounds or the step of the FOR fail, the statement to continue
+    /// with (RESUME NEXT) is the one after NEXT: the loop was not set up, its
+    /// body must not run without its register frame.
+    fn generate_for_header_resume_point(&mut self, pos: Position) {
+        self.jump("for-begin", pos);
+        self.mark_statement_address();
+        self.jump("out-of-for", pos);
+        self.label("for-begin", pos);
     }
 
     fn generate_for_loop_instructions_positive_or_negative_step(
